@@ -1,6 +1,6 @@
 """C06 — serial and parallel traversal report the same entries."""
 from .. import cfg as C
-from ..flow import ExprBuilder, mentions_field, mentions_call, is_call, walk, show, seed_after_call, I, V, Sccp, cond_switches, guarded, is_field, strip
+from ..flow import ExprBuilder, mentions_field, mentions_call, is_call, walk, show, seed_after_call, I, V, Sccp, cond_switches, guarded, is_field, strip, value_set
 from ..graph import field_rw, field_rw_deep, CallGraph
 from ..facts import op_place, op_const
 
@@ -67,7 +67,26 @@ def pred_calls(f, owner):
             out["filesize"].append((c, I(1)))
         elif c.is_(*FNCALL) and c.args and mentions_field(eb.operand(c.args[0]), owner, "filter"):
             out["filter"].append((c, I(0)))
+        elif c.path.endswith(("Option::map_or", "Option::is_some_and", "Option::is_none_or", "Option::map")) and c.args and \
+                mentions_field(eb.operand(c.args[0]), owner, "filter") and FACTS[0] is not None:
+            # the combinator spelling: `self.filter.as_ref().map_or(false, |Filter(p)| !p(&dent))` — the predicate is called
+            # in the closure; the site is the combinator, and what it yields when the predicate says no is what the
+            # closure yields then
+            for a_ in c.args[1:]:
+                for x in walk(eb.operand(a_)):
+                    g_ = FACTS[0].fns.get(x[1]) if x.k == "closure" else None
+                    if g_ is not None and any(c2.is_(*FNCALL) for c2 in g_.calls()):
+                        sx = Sccp(g_, call_model=lambda c2, argv: I(0) if c2.is_(*FNCALL) else None).run([(0, {})])
+                        vals = {y for v in sx.ret_values.values() for y in value_set(v)}
+                        if len(vals) == 1 and None not in vals:
+                            v_ = next(iter(vals))
+                            out["filter"].append((c, V("Some", v_) if c.path.endswith("Option::map") else v_))
+                            INNER_SITE[(f.path, c.bb)] = (g_, [c2 for c2 in g_.calls() if c2.is_(*FNCALL)][0])
     return out
+
+
+FACTS = [None]
+INNER_SITE = {}
 
 
 def keep_sites_serial(f):
@@ -136,6 +155,7 @@ def follow_first_rule(ctx, r):
 
 def run(ctx):
     facts = ctx.facts
+    FACTS[0] = facts
     ser = facts.fn(W + "::Walk::skip_entry")
     par = facts.fn(W + "::Worker::generate_work")
     consulted = {}
@@ -248,8 +268,14 @@ def run(ctx):
             if not ps[p] or not pp[p]:
                 r.bad(p, "anchor-missing: %s predicate call in one of the walkers" % p)
                 continue
-            a = sig(ser, W + "::Walk", ps[p][0][0])
-            b = sig(par, W + "::Worker", pp[p][0][0])
+            def sig_of(f_, owner_, c_):
+                inner = INNER_SITE.get((f_.path, c_.bb))
+                if inner is None:
+                    return sig(f_, owner_, c_)
+                # the predicate is called inside the combinator's closure: its own argument list, the callee being the filter
+                return [frozenset({"self.filter"})] + sig(inner[0], owner_, inner[1])[1:]
+            a = sig_of(ser, W + "::Walk", ps[p][0][0])
+            b = sig_of(par, W + "::Worker", pp[p][0][0])
             # the entry itself is an argument in the serial walker and a local in the parallel one; compare the
             # calls/fields each argument is computed from
             na = [frozenset(x for x in s_ if not x.startswith("arg:")) for s_ in a]
@@ -369,27 +395,44 @@ def run(ctx):
                   "(DirEntryRaw::from_path(.., true)): symlinked directories are not descended although the serial walker does",
                   fn=gwf, construct="follow_links")
         follow_first_rule(ctx, r)
-        sfs = ro.calls_to(W + "::is_same_file_system")
+        # value table over (work.root_device, is_same_file_system(..)): the check may sit in run_one or in a closure it hands
+        # to a combinator (`root_device.map(|dev| is_same_file_system(dev, ..))`)
+        sfs = [c for u_ in facts.with_closures(ro.path) for c in u_.calls_to(W + "::is_same_file_system")]
+        ok_visits = [c for c in ro.calls() if (c.func.get("trait") or "").endswith("ParallelVisitor") and c.func.get("name") == "visit" and
+                     (lambda e_: e_.k == "agg" and e_[2] == "Ok")(strip(ebr.operand(c.args[1])))]
+        # (visits that come after the check: the early hand-over of a non-directory is not one of them)
+        site_bbs = [c.bb for c in sfs if c.fn is ro]
+        for c in ro.calls():
+            if any(x.k == "closure" and any(c2.fn.path == x[1] or c2.fn.path.startswith(x[1] + "::") for c2 in sfs)
+                   for a_ in c.args for x in walk(ebr.operand(a_))):
+                site_bbs.append(c.bb)
+        after_check = set()
+        for b_ in site_bbs:
+            after_check |= C.reach_after(ro, b_)
+        ok_visits = [c for c in ok_visits if c.bb in after_check]
         if sfs and gw:
-            s0 = seed_after_call(ro, sfs[0], V("Ok", I(0)))
-            if gw[0].bb in s0.exec_blocks:
+            res = {}
+            for row, sx in table(facts, ro, fields={(W + "::Work", "root_device"): [V("None", None), V("Some", I(7))]},
+                                 calls={"walk::is_same_file_system": [V("Ok", I(0)), V("Ok", I(1)), V("Err", None)]}):
+                dev = row[("field", (W + "::Work", "root_device"))][1]
+                ans = row[("call", "walk::is_same_file_system")]
+                res[(dev, ans[1], ans[2])] = (gw[0].bb in sx.exec_blocks, [c for c in ok_visits if c.bb in sx.exec_blocks])
+            if res[("Some", "Ok", I(0))][0]:
                 r.bad("same_fs", "a directory on another file system is still descended by the parallel walker", fn=ro, construct="same_fs")
+            elif not res[("Some", "Ok", I(1))][0] or not res[("None", "Ok", I(1))][0]:
+                r.bad("same_fs", "the parallel walker no longer descends directories on the root's own file system", fn=ro, construct="same_fs")
             else:
                 r.ok("same_fs", "is_same_file_system == false ⇒ visited but not descended", fn=ro)
-        else:
-            r.bad("same_fs", "anchor-missing: device check in run_one", fn=ro)
-        # ... and when the device of a directory cannot be determined, walkdir yields the error *in place of* the entry
-        if sfs:
-            s_e = seed_after_call(ro, sfs[0], V("Err", None))
-            ok_visits = [c for c in ro.calls() if (c.func.get("trait") or "").endswith("ParallelVisitor") and c.func.get("name") == "visit" and
-                         (lambda e_: e_.k == "agg" and e_[2] == "Ok")(strip(ebr.operand(c.args[1])))]
-            late = [c for c in ok_visits if c.bb in s_e.exec_blocks]
-            if late:
+            # ... and when the device of a directory cannot be determined, walkdir yields the error *in place of* the entry
+            late = res[("Some", "Err", None)][1]
+            if late or res[("Some", "Err", None)][0]:
                 r.bad("same_fs|error", "when is_same_file_system fails, Worker::run_one reports the error and then the entry as well; "
                       "the serial walker (walkdir) yields the error instead of the entry, so the two walkers disagree on the set "
-                      "of entries", fn=ro, loc=late[0].loc, construct="same_fs")
+                      "of entries", fn=ro, loc=(late[0].loc if late else gw[0].loc), construct="same_fs")
             else:
                 r.ok("same_fs|error", "device unknown ⇒ the error stands in for the entry, as in walkdir", fn=ro)
+        else:
+            r.bad("same_fs", "anchor-missing: device check in run_one", fn=ro)
         # ... and the device a root's subtree is pinned to is that root's own: looked up in the very loop iteration that hands
         # the root out (walkdir does the same per WalkDir). A device carried over from an earlier root prunes (or follows)
         # the wrong directories as soon as two roots lie on different file systems.
